@@ -85,7 +85,7 @@ PROPS = {
         'assumptions': [],
     },
     'C02': {
-        'units': ['reader', 'decode'],
+        'units': ['reader', 'decode', 'builder', 'encode', 'bytesio', 'cw', 'layout'],
         'kani': ['read_le','unpack_le','common_tables','find_input_scan'],
         'level_text': 'Proof: FstRef::get / contains_key (real bodies) and the Fst / Map / Set wrappers are verified to return exactly '
                       'lookup(root, key) over the decoded graph for every probe of every length (absent keys, prefixes, extensions, '
@@ -94,7 +94,8 @@ PROPS = {
                       'of the file bytes written from the format description (any version).',
         'level_note': 'The reader unit states the Node accessor contracts over an abstract decode function; the decode unit proves them '
                       'over dec_view under `plausible` (the address holds a node that decodes inside the file) - the link between the two '
-                      'phrasings is argued, not yet a token-identical CONTRACT-OF link. Relation of the graph to the inserted map: C01.',
+                      'phrasings is a token-identical CONTRACT-OF link (inc/node_iface.rs). The property speaks about *built* maps, so the '
+                      'writer-side units (builder, encode, bytesio, cw, layout) are part of this check as well.',
         'explanation': '',
         'assumptions': [],
     },
@@ -130,9 +131,9 @@ PROPS = {
         'assumptions': ['minimality / trie bound / corpus sharing ratio: not expressible as function contracts (DESIGN.md section 10)'],
     },
     'C03': {
-        'units': ['stream'],
+        'units': ['stream', 'decode', 'builder', 'encode', 'bytesio', 'cw', 'layout'],
         'kani': ['seek_position'],
-        'own': {'stream': r'Bound::|StreamBuilder|StreamWithState::(new|seek_min|next_with)|Stream::|impl&%\\d+::(next|into_stream)|Output::'},
+        'own': {'stream': r'.'},
         'level_text': 'Proof: StreamWithState::seek_min and next_with (real bodies) are verified against the depth-first listing of the '
                       'decoded graph: after seek_min exactly the entries >= / > the lower bound are outstanding; each next returns the first '
                       'outstanding entry that the upper bound admits and leaves the rest; None exactly when nothing is left, forever. '
@@ -145,9 +146,9 @@ PROPS = {
         'assumptions': [],
     },
     'C04': {
-        'units': ['stream', 'automaton'],
+        'units': ['stream', 'automaton', 'decode', 'builder', 'encode', 'bytesio', 'cw', 'layout'],
         'kani': ['seek_position'],
-        'own': {'stream': r'StreamWithState::(new|seek_min|next_with)|Stream::|impl&%\\d+::(next|into_stream)', 'automaton': r'.'},
+        'own': {'stream': r'.', 'automaton': r'.'},
         'level_text': 'Proof: the stream contracts of C03 are stated for an arbitrary A: Automaton of which only the trait contract of C18 '
                       'is known (inv/denot/lang; can_match only has to be sound), so the result - the in-range keys k with lang(k), in '
                       'listing order with their values - does not depend on how precise the pruning hints are. The shipped automata and '
